@@ -12,7 +12,7 @@ pub static DEF: PropDef = PropDef {
     level: "exploration",
     total: |t| t.pick(256, 8000),
     run,
-    rule: "metamorphic pairs: one C01 decision schedule (writes, reads, deliver/drop/duplicate/reorder, ticks, then 25 fair rounds) executed under ISN pair (i,j) and under a shifted pair chosen so that the sequence space wraps 2^32 or crosses 2^31 during handshake or transfer; per step the emitted segments (flags, length, window, seq relative to the sender's ISN, ack relative to the receiver's ISN), states, delivered byte counts and release points must be identical. Plus comparison primitives mod_lt/leq/gt/geq/bounded against (b-a) mod 2^32 arithmetic for (a,d) with d<2^31, d biased to {0,1,2^31-2,2^31-1}, a around 0/2^31/2^32. Non-trivial pair = the shifted run's sequence numbers actually wrapped/crossed; distinct by (schedule hash, ISNs). Non-trivial primitive sample = distinct (a-class,d-class) tuple.",
+    rule: "metamorphic pairs: one C01 decision schedule (writes, reads, deliver/drop/duplicate/reorder, ticks, in half of them also one or two closes by either application at any point, then 25 fair rounds) executed under ISN pair (i,j) and under a shifted pair chosen so that the sequence space wraps 2^32 or crosses 2^31 during handshake or transfer; per step the emitted segments (flags, length, window, seq relative to the sender's ISN, ack relative to the receiver's ISN), states, delivered byte counts and release points must be identical. Plus comparison primitives mod_lt/leq/gt/geq/bounded against (b-a) mod 2^32 arithmetic for (a,d) with d<2^31, d biased to {0,1,2^31-2,2^31-1}, a around 0/2^31/2^32. Non-trivial pair = the shifted run's sequence numbers actually wrapped/crossed; distinct by (schedule hash, ISNs). Non-trivial primitive sample = distinct (a-class,d-class) tuple.",
     assumptions: &["the unshifted run is not itself an oracle of correctness (C01 is); only equality of the two normalised behaviours is judged"],
     may_exit_process: false,
     watchdog_s: 600,
@@ -82,7 +82,16 @@ fn metamorphic(env: &Env, k: u64, d: &mut Delta) {
     let n = env.tier.pick(32, 32);
     for i in 0..n {
         d.evaluations += 1;
-        let pr = gen_params(&mut rng, 250);
+        let mut pr = gen_params(&mut rng, 250);
+        // half of the schedules also close: one or both applications, anywhere in the schedule, so that the
+        // closing states and the FIN's sequence number take part in the comparison
+        if rng.chance(1, 2) {
+            for _ in 0..rng.gen_range(1..=2) {
+                let at = rng.gen_range(0..=pr.decisions.len());
+                pr.decisions.insert(at, Decision::Close(rng.gen_range(0..2)));
+            }
+            d.tally("schedules_with_close", 1);
+        }
         // the shifted pair: land each ISN shortly before a wrap point
         let near = |rng: &mut rand::rngs::SmallRng| -> u32 {
             let back = match rng.gen_range(0..4) {
